@@ -1,4 +1,5 @@
 import PydjinniModel.Props.C03
 import PydjinniModel.Props.C03Parse
 import PydjinniModel.Props.C03Lex
-/-! All C03 theorems (target sets, comments, lexer progress/termination/positions/reconstruction; parse ∘ print round trip). -/
+import PydjinniModel.Props.C03Decl
+/-! All C03 theorems (target sets, comments, lexer progress/termination/positions/reconstruction; parse ∘ print round trip for types/fields (C03Parse) and for whole declarations, namespaces and files (C03Decl)). -/
